@@ -247,6 +247,9 @@ class Interp:
 
     # ------------------------------------------------------------------ truthiness
     def truth(self, v):
+        from .values import NpScalar
+        if isinstance(v, NpScalar):
+            return self.truth(v.val)
         if isinstance(v, bool):
             return v
         if v is None:
@@ -728,7 +731,8 @@ class Interp:
 
     def setitem(self, o, idx, v):
         from . import lib
-        self.note_mutation(o)
+        if not isinstance(o, Obj):
+            self.note_mutation(o)
         return lib.setitem(self, o, idx, v)
 
     def note_mutation(self, container):
